@@ -453,6 +453,9 @@ impl<'a, W: 'static, R: 'static, T: 'static> RuntimeScope<'a, W, R, T> {
                                     return Err(RuntimeViolation::MaximumRecursion);
                                 }
                             }
+                            // a tail call is a user function call like any other
+                            rt.increment_call_limit()?;
+                            rt.check_timeout()?;
                             args = new_args;
                         }
                         v => break Ok(v),
